@@ -224,4 +224,123 @@ example :
      | _ => none) = some (4, 70) := by decide
 
 
+/-! ## O(n) copying -/
+
+/-- bytes the allocator may have to move: the size of the old allocation at every successful `realloc` -/
+def copied : List Ev → Nat
+  | [] => 0
+  | .realloc old _ :: rest => old + copied rest
+  | _ :: rest => copied rest
+
+/-- `push_unique_heap` with the event log: a push that fits leaves the log alone, a push that grows
+appends exactly one `realloc` of the old allocation (`HEADER + capacity` bytes) -/
+theorem push_unique_heap_log {ocf base st hp r t} (g : Good ocf base st hp r t) (hu : Unique hp r) (hcap : 16 < capOf hp r)
+    (s : Bytes) (hs : Valid s) (hne : s ≠ []) (hsmall : 2 * (t.length + s.length) ≤ MAX_LEN) :
+    ∃ hp1 r1, pushStr never st hp r s = .ok () hp1 r1 ∧ Good ocf base st hp1 r1 (t ++ s) ∧ Unique hp1 r1 ∧
+      ((t.length + s.length ≤ capOf hp r ∧ hp1.reqs = hp.reqs ∧ capOf hp1 r1 = capOf hp r ∧ hp1.log = hp.log) ∨
+       (capOf hp r < t.length + s.length ∧ hp1.reqs = hp.reqs + 1 ∧
+        capOf hp1 r1 = Gen.amortizedGrowth t.length s.length ∧
+        copied hp1.log = HEADER + capOf hp r + copied hp.log)) := by
+  have hML := Tie.maxLen_eq
+  have hlen := good_len g
+  have hemp : s.isEmpty = false := by cases s <;> simp at hne ⊢
+  have hvalid : Valid (t.take t.length ++ s) := by rw [List.take_length]; exact valid_append g.valid hs
+  by_cases hfit : t.length + s.length ≤ capOf hp r
+  · have hres := C11.reserve_within_capacity never st hp r s.length hu (by rw [hlen]; exact hfit) (by rw [hlen]; omega)
+    obtain ⟨hp2, r2, hwr, g2, hu2, hcap2, hq, hlg, _, _⟩ := good_write g hu t.length s (Nat.le_refl _) hfit hvalid
+    rw [List.take_length] at g2
+    refine ⟨hp2, r2, ?_, g2, hu2, Or.inl ⟨hfit, hq, hcap2, hlg⟩⟩
+    unfold pushStr
+    simp only [hemp, Bool.false_eq_true, if_false, hres, hlen]
+    exact hwr
+  · cases r with
+    | inl raw => simp [capOf] at hcap
+    | stat s' l => exact absurd hu (by simp [Unique])
+    | heap a l =>
+      obtain ⟨b, hb, hlc, htk, htl, hdl, hrc, hcm⟩ := good_text_heap g
+      obtain ⟨b', hb', hrc1⟩ := hu
+      rw [hb] at hb'; injection hb' with hb'; subst hb'
+      have hcapb : capOf hp (.heap a l) = b.cap := by simp [capOf, hb]
+      rw [hcapb] at hfit
+      have hadd : t.length + s.length < 2 ^ 64 := by omega
+      have ⟨hg1, hg2⟩ := growth_bounds t.length s.length hadd
+      have hgm := growth_le_max t.length s.length (by omega) hadd
+      have hnew : Gen.amortizedGrowth t.length s.length ≤ MAX_LEN := by omega
+      have hsize : b.size = HEADER + b.cap := (g.inv.blocks a b hb).2.2.2.2
+      rcases good_realloc g b hb hrc1 never (Gen.amortizedGrowth t.length s.length) (by omega) with
+        ⟨hp1, her, _, hq⟩ | ⟨hp2, he, g2, hg, _, hq2, _, hlog2⟩
+      · exfalso
+        have hre : hp.realloc never a (Gen.amortizedGrowth t.length s.length) ≠ .refused hp1 := by
+          unfold Heap.realloc
+          simp only [hb, hrc1]
+          have hck : capOk (Gen.amortizedGrowth t.length s.length) = true := (capOk_iff _).2 hnew
+          simp [hck, hsize, never]
+        exact hre her
+      · have hres : reserve never st hp (.heap a l) s.length = .ok () hp2 (.heap hp.slots.length l) := by
+          have hca : checkedAdd t.length s.length = some (t.length + s.length) := by
+            unfold checkedAdd USIZE; rw [if_pos (by omega)]
+          unfold reserve
+          simp only [hlen, hca, hb, hrc1, if_true]
+          rw [if_neg (by omega), he]
+        have hu2 : Unique hp2 (.heap hp.slots.length l) := ⟨_, hg, rfl⟩
+        have hc2 : capOf hp2 (.heap hp.slots.length l) = Gen.amortizedGrowth t.length s.length := by simp [capOf, hg]
+        obtain ⟨hp3, r3, hwr, g3, hu3, hcap3, hq3, hlg3, _, _⟩ :=
+          good_write g2 hu2 t.length s (Nat.le_refl _) (by rw [hc2]; omega) hvalid
+        rw [List.take_length] at g3
+        refine ⟨hp3, r3, ?_, g3, hu3, Or.inr ⟨by rw [hcapb]; omega, by rw [hq3, hq2], by rw [hcap3, hc2], ?_⟩⟩
+        · unfold pushStr
+          simp only [hemp, Bool.false_eq_true, if_false, hres, hlen]
+          exact hwr
+        · rw [hlg3, hlog2, hcapb, hsize]; simp only [copied]
+
+
+/-- **n single-character pushes cost O(n) copying.** Pushing the ASCII bytes `bs` one by one onto an exclusively
+owned heap string (allocator willing): the bytes the allocator may have had to move — the sizes of the old
+allocations at all the reallocations on the way — are at most `2·(c − c₀) + 17·q`, where `c₀`, `c` are the capacity
+before and after and `q` the number of requests.  With `c ≤ max c₀ (3·len/2)` and `q` logarithmic
+(`ascii_pushes_log`) that is at most about `3·len`: linear in the number of pushes. -/
+theorem ascii_pushes_copy_linear {ocf base st} : ∀ (bs : List UInt8) (hp : Heap) (r : Handle) (t : Bytes),
+    Good ocf base st hp r t → Unique hp r → 16 < capOf hp r → (∀ b ∈ bs, b.toNat < 0x80) →
+    2 * (t.length + bs.length) ≤ MAX_LEN →
+    ∃ hp' r', pushLoop never st hp r (bs.map (fun b => some [b])) = .ok () hp' r' ∧
+      Good ocf base st hp' r' (t ++ bs) ∧ Unique hp' r' ∧ capOf hp r ≤ capOf hp' r' ∧ hp.reqs ≤ hp'.reqs ∧
+      copied hp'.log + 2 * capOf hp r ≤ copied hp.log + 2 * capOf hp' r' + 17 * (hp'.reqs - hp.reqs) := by
+  intro bs
+  induction bs with
+  | nil =>
+    intro hp r t g hu hcap _ _
+    exact ⟨hp, r, rfl, by simpa using g, hu, Nat.le_refl _, Nat.le_refl _, by omega⟩
+  | cons b bs ih =>
+    intro hp r t g hu hcap hasc hsmall
+    have hML := Tie.maxLen_eq
+    have hH := Tie.header_eq
+    simp only [List.length_cons] at hsmall
+    obtain ⟨hp1, r1, hpush, g1, hu1, hcase⟩ := push_unique_heap_log g hu hcap [b]
+      (valid_byte b (hasc b (List.mem_cons_self ..))) (by simp) (by simp only [List.length_singleton]; omega)
+    have hlen_le : t.length ≤ capOf hp r := good_len_le_cap g
+    have hstep : hp.reqs ≤ hp1.reqs ∧ capOf hp r ≤ capOf hp1 r1 ∧ 16 < capOf hp1 r1 ∧
+        copied hp1.log + 2 * capOf hp r ≤ copied hp.log + 2 * capOf hp1 r1 + 17 * (hp1.reqs - hp.reqs) := by
+      rcases hcase with ⟨_, hq, hc, hl⟩ | ⟨hlt, hq, hc, hl⟩
+      · rw [hl, hc, hq]; exact ⟨Nat.le_refl _, Nat.le_refl _, by omega, by omega⟩
+      · simp only [List.length_singleton] at hlt hc
+        have hfull : t.length = capOf hp r := by omega
+        have hge := growth_ge_one_and_a_half t.length 1 (by omega)
+        refine ⟨by omega, by omega, by omega, ?_⟩
+        rw [hl, hq, hc, hH]; omega
+    obtain ⟨hq1, hc1, hcap1, hcost⟩ := hstep
+    have hsmall1 : 2 * ((t ++ [b]).length + bs.length) ≤ MAX_LEN := by simp; omega
+    obtain ⟨hp', r', hloop, g', hu', hc', hq', hcost'⟩ :=
+      ih hp1 r1 (t ++ [b]) g1 hu1 hcap1 (fun x hx => hasc x (List.mem_cons_of_mem _ hx)) hsmall1
+    refine ⟨hp', r', ?_, by simpa using g', hu', by omega, by omega, by omega⟩
+    simp only [List.map_cons, pushLoop, hpush]; exact hloop
+
+-- non-vacuity: 40 pushes onto a 17-byte heap string: 17 → 25 → 37 → 55 → 82; the four old allocations
+-- (16 + 17, 16 + 25, 16 + 37, 16 + 55 bytes) add up to 198 ≤ 2·(82 − 17) + 17·4 = 198
+example :
+    (match fromStr never {} (List.replicate 17 0x61) with
+     | (some r, hp) => (match pushLoop never [] hp r ((List.replicate 40 (0x62 : UInt8)).map (fun b => some [b])) with
+        | .ok _ hp' r' => some (copied hp'.log - copied hp.log, capOf hp' r', hp'.reqs - hp.reqs)
+        | _ => none)
+     | _ => none) = some (198, 82, 4) := by decide
+
 end LS.C12
